@@ -1,5 +1,6 @@
 import Gaftools.Props.C01b
 import Gaftools.Props.TieA
+import Gaftools.Props.Glue
 #print axioms Gaftools.TieA.mergeNodes_gen_eq_model
 #print axioms Gaftools.C01.contigSlice_node
 #print axioms Gaftools.C01.contigSlice_append
@@ -15,3 +16,11 @@ import Gaftools.Props.TieA
 #print axioms Gaftools.C03.searchIv_window
 #print axioms Gaftools.C03.searchIv_isSome
 #print axioms Gaftools.C03.selected_eq_overlaps
+#print axioms Gaftools.Glue.infos_readGraph
+#print axioms Gaftools.Glue.nodeTable_eq
+#print axioms Gaftools.Glue.refContigs_eq
+#print axioms Gaftools.Glue.reference_eq
+#print axioms Gaftools.Glue.contigLen_eq
+#print axioms Gaftools.Glue.parse_render_unstable
+#print axioms Gaftools.Glue.parse_render_ivs
+#print axioms Gaftools.Glue.parse_render_bare
